@@ -108,6 +108,18 @@ fn b(x: bool) -> char {
 
 /// `G <events1> / <events2> | <iterator script>`
 pub fn run_g(args: &[&str]) -> String {
+    // optional first argument `m<hex>`: mask applied to every 32-bit child hash (forces collisions)
+    let (mask, args) = match args.first() {
+        Some(m) if m.starts_with('m') => (u32::from_str_radix(&m[1..], 16).unwrap_or(u32::MAX), &args[1..]),
+        _ => (u32::MAX, args),
+    };
+    cstree::verif::set_hash_mask(mask);
+    let out = run_g_inner(args);
+    cstree::verif::set_hash_mask(u32::MAX);
+    out
+}
+
+fn run_g_inner(args: &[&str]) -> String {
     let parts = split(args, "|");
     let builds = split(parts[0], "/");
     let script: &[&str] = if parts.len() > 1 { parts[1] } else { &[] };
